@@ -176,6 +176,17 @@ def fixed_corpus():
     add(D([A3, B3, window('W', 'B', 2, start=3)], cross('ABW', 'B', [['ExactlyK', 2, 'W', 'w0']])))
     add(D([A3, B3, window('W', 'B', 2, start=3)], cross('ABW', 'B', [['AtMostKInARow', 1, 'W', 'w0']])))
     add(D([A3, B3, window('W', 'B', 2, start=3)], cross('ABW', 'B', [['Pin', 0, 'W', 'w0']])))
+    # window factors over another window factor (second order), constrained / crossed / mixed with a basic source
+    QR = transition('Q', 'R')
+    add(D([A2, B2, TRA, QR], cross('ABRQ', 'AB', [['AtMostKInARow', 1, 'Q', 'q0']])))
+    add(D([A2, B2, TRA, QR], cross('ABRQ', 'Q')))
+    add(D([A2, B2, TRA, QR], cross('ABRQ', 'RQ')))
+    add(D([A2, B2, TRA, window('W', 'R', 3)], cross('ABRW', 'AB', [['ExactlyK', 1, 'W', 'w0']])))
+    add(D([A2, B2, TRA, window('W', 'R', 2, start=3)], cross('ABRW', 'AB', [['AtMostKInARow', 1, 'W', 'w1']])))
+    add(D([A2, B2, TRA, QR, transition('P', 'Q')], cross('ABRQP', 'AB', [['ExactlyK', 1, 'P', 'p0']])))
+    add(D([A2, B2, TRA, {'name': 'Q', 'window': {'kind': 'transition', 'factors': ['R', 'B']},
+                         'levels': [{'name': 'q0', 'pred': ['table', [[[x, x], [y, y]] for x in ('r0', 'r1') for y in ('b0', 'b1')]]},
+                                    {'name': 'q1', 'else': True}]}], cross('ABRQ', 'AB', [['AtMostKInARow', 2, 'Q', 'q1']])))
     # a two-trial preamble over a 3-level factor (3**2 preambles, not 3*2)
     add(D([A3, window('W', 'A', 3)], cross('AW', 'W')))
     # a window wider than the whole sequence (two trials), starting early: shifted source indices run past the grid
@@ -427,6 +438,9 @@ def random_design(rnd, tmax=8):
                                          {'name': 'w1', 'else': True}]
             if derived[-1]['levels'][0]['pred'][0] == 'first':
                 derived[-1]['levels'][0]['pred'] = ['first', w['factors'][0].lower() + '0']
+    if derived and rnd.random() < 0.2 and derived[0]['window'].get('stride', 1) == 1:
+        # a second-order derived factor: a transition over the first derived factor
+        derived.append(transition('Q', derived[0]['name']))
     factors += derived
     design += [d['name'] for d in derived]
 
